@@ -36,7 +36,7 @@ theorem CalcR.mem_dyn {inp : RunInput} {s : Sys} {n : Name} {nd : Node} (hok : N
     · rw [e] at hm; cases hm
 
 /-- at a complete end every member of the denotational closure has been reported -/
-theorem closure_reported {inp : RunInput} [NoFailDeliver inp] {s : Sys} (hr : Reach inp s ∨ PReach inp s)
+theorem closure_reported {inp : RunInput} {s : Sys} (hr : Reach inp s ∨ PReach inp s)
     (hend : s.rpc = .halted) (hhalt : s.halt = .none) (hstop : s.stop = false) (t : Name) (h : DenCl inp t) :
     Reported s t := by
   have hE : EndFacts inp s := by
@@ -49,7 +49,7 @@ theorem closure_reported {inp : RunInput} [NoFailDeliver inp] {s : Sys} (hr : Re
   have hG : InvG inp s := by rcases hr with a | a; exact reach_invG a; exact preach_invG a
   have sdOf : ∀ t nd, s.nodes t = some nd → SelDeps inp s t nd := fun t nd hn =>
     sel_deps hD.den hD.nodeS h2.inv1 hG.dc hn (by rw [hE.allDone t nd hn]; rfl) (by rw [hE.allDone t nd hn]; rfl)
-      (DelivF.noFail s nd)
+      (hD.delivF h2.inv1 hn (by rw [hE.allDone t nd hn]; rfl))
   have mk : ∀ t, DenCl inp t → created s t := by
     intro t ht
     induction ht with
@@ -89,7 +89,7 @@ theorem closure_reported {inp : RunInput} [NoFailDeliver inp] {s : Sys} (hr : Re
 
 /-- closure equality: at a complete end of a run — serial or parallel, any schedule, any graph — exactly the members of
     the denotational closure of the selection have a terminal report -/
-theorem reported_iff_closure {inp : RunInput} [NoFailDeliver inp] {s : Sys} (hr : Reach inp s ∨ PReach inp s)
+theorem reported_iff_closure {inp : RunInput} {s : Sys} (hr : Reach inp s ∨ PReach inp s)
     (hend : s.rpc = .halted) (hhalt : s.halt = .none) (hstop : s.stop = false) (t : Name) :
     Reported s t ↔ DenCl inp t :=
   ⟨reported_in_closure hr t, closure_reported hr hend hhalt hstop t⟩
